@@ -670,7 +670,7 @@ def run(run: Run):
     from . import c02 as _c02
     from .common import borrow as _b2
     run.rule('C14.R9', 'the area a lookup scans is the rectangle between the written corners, row-major (shared with C02.R1/R2/R4)')
-    _b2(run, 'C14.R9', _c02.r1, src, g)
+    _b2(run, 'C14.R9', _c02.r1_any, src, g)
     run.rule('C14.R11', 'INDEX: the addressed cell decides, other cells of the area have no say; outside the area is #REF!')
     run.guard('C14.R11', r11_index_eval, run, rt)
     run.floor('C14.R11', 20)
